@@ -355,9 +355,10 @@ def fill_body(label, body, invs, tokens, nloops, parts, nogate=(), extratag='@C0
         if ".call(h, g, c" in line:
             site = f"/*@site {label}#{k}*/"
             k += 1
-            m = re.match(r"^(\s*)(\S.*?)\.call\(h, g, c, (.*)\);\s*$", line)
-            if m and not m.group(2).startswith("let ") and m.group(2).strip() not in nogate:
-                ind, recv, args = m.groups()
+            m = re.match(r"^(\s*)(return\s+)?(\S.*?)\.call\(h, g, c, (.*)\);\s*$", line)
+            if m and not m.group(3).startswith("let ") and m.group(3).strip() not in nogate:
+                ind, ret, recv, args = m.groups()
+                ret = ret or ""
                 lines.append(f"{ind}; {{")
                 lines.append(f"{ind}    let __r = {recv}; let __m = {args};")
                 lines.append(f"{ind}    proof {{")
@@ -369,7 +370,7 @@ def fill_body(label, body, invs, tokens, nloops, parts, nogate=(), extratag='@C0
                 for pi, (name, tag) in enumerate(parts):
                     lines.append(f"{ind}        assert(__r.needs_inv(g@, __m, {pi}) ==> inv_{name}(*h, __r.post(g@, __m), *c)); /* {tag} (at the yield) */ {site}")
                 lines.append(f"{ind}    }}")
-                lines.append(f"{ind}    __r.call(h, g, c, __m); {site}")
+                lines.append(f"{ind}    {ret}__r.call(h, g, c, __m); {site}")
                 lines.append(f"{ind}}}")
                 continue
             line += " " + site
